@@ -116,6 +116,13 @@ template <class T, glm::qualifier Q> static void reg_ctors() {
 	add_op(nm<T, Q>("trunc_v4", "vec3"), sp("@$4"), sp("@3"), 'B', 'B', 0, FN { ST(out, V3(VL<4, T, Q>::ld(in))); });
 	add_op(nm<T, Q>("trunc_v4", "vec2"), sp("@$4"), sp("@2"), 'B', 'B', 0, FN { ST(out, V2(VL<4, T, Q>::ld(in))); });
 	add_op(nm<T, Q>("trunc_v3", "vec2"), sp("@$3"), sp("@2"), 'B', 'B', 0, FN { ST(out, V2(VL<3, T, Q>::ld(in))); });
+	// cross-qualifier conversions: in SIMD builds these are the packed <-> aligned loads and stores (a packed vec3 is 12 bytes: a 16-byte
+	// load from it reads out of bounds, which the AddressSanitizer builds of C20 see on these stack objects)
+	add_op(nm<T, Q>("from_packed_highp", "vec3"), sp("@$3"), sp("@3"), 'B', 'B', 0, FN { glm::vec<3, T, glm::packed_highp> p(SA<T>::get(in[0]), SA<T>::get(in[1]), SA<T>::get(in[2])); V3 a(p); ST(out, a); });
+	add_op(nm<T, Q>("from_packed_mediump", "vec4"), sp("@$4"), sp("@4"), 'B', 'B', 0, FN { glm::vec<4, T, glm::packed_mediump> p(SA<T>::get(in[0]), SA<T>::get(in[1]), SA<T>::get(in[2]), SA<T>::get(in[3])); V4 a(p); ST(out, a); });
+	add_op(nm<T, Q>("from_packed_lowp", "vec2"), sp("@$2"), sp("@2"), 'B', 'B', 0, FN { glm::vec<2, T, glm::packed_lowp> p(SA<T>::get(in[0]), SA<T>::get(in[1])); V2 a(p); ST(out, a); });
+	add_op(nm<T, Q>("to_packed_highp", "vec3"), sp("@$3"), sp("@3"), 'B', 'B', 0, FN { V3 a = VL<3, T, Q>::ld(in); glm::vec<3, T, glm::packed_highp> p(a); for (int i = 0; i < 3; ++i) SA<T>::put(out[i], p[i]); });
+	add_op(nm<T, Q>("to_packed_highp", "vec4"), sp("@$4"), sp("@4"), 'B', 'B', 0, FN { V4 a = VL<4, T, Q>::ld(in); glm::vec<4, T, glm::packed_highp> p(a); for (int i = 0; i < 4; ++i) SA<T>::put(out[i], p[i]); });
 	add_op(nm<T, Q>("copy_assign_index", "vec4"), sp("@$4"), sp("@4"), 'B', 'B', 0, FN { V4 a = VL<4, T, Q>::ld(in); V4 b; b = a; V4 c2; for (int i = 0; i < 4; ++i) c2[i] = b[3 - i]; ST(out, c2); });
 	add_op(nm<T, Q>("copy_assign_index", "vec3"), sp("@$3"), sp("@3"), 'B', 'B', 0, FN { V3 a = VL<3, T, Q>::ld(in); V3 b; b = a; V3 c2; for (int i = 0; i < 3; ++i) c2[i] = b[2 - i]; ST(out, c2); });
 }
